@@ -43,7 +43,9 @@ def And(*fs):
     for f in fs:
         if f[0] == "and":
             out.extend(f[1])
-        else:
+        elif f == FALSE:
+            return FALSE
+        elif f != TRUE:
             out.append(f)
     if not out:
         return TRUE
@@ -55,7 +57,9 @@ def Or(*fs):
     for f in fs:
         if f[0] == "or":
             out.extend(f[1])
-        else:
+        elif f == TRUE:
+            return TRUE
+        elif f != FALSE:
             out.append(f)
     if not out:
         return FALSE
